@@ -124,6 +124,16 @@ struct sig<std::index_sequence<I...>> {
     using type = int(vb<I>...);
 };
 
+// OUTERLIST=1: the list of methods given to product is a boost::mp11::mp_list
+// (any mp11 list is a list of types), so that the product itself is one
+#ifndef OUTERLIST
+#define OUTERLIST 0
+#endif
+#if OUTERLIST
+#define METHOD_LIST boost::mp11::mp_list
+#else
+#define METHOD_LIST types
+#endif
 #ifndef TWOMETHODS
 #define TWOMETHODS 0
 #endif
@@ -170,7 +180,7 @@ struct Case {
         : shared_impl<T...>,
           std::conditional_t<Mask::test(combo_index<T...>()), undefined_mark, defined_base> {};
     using lists = product<
-        types<M, M2>, typename classes<D1>::type
+        METHOD_LIST<M, M2>, typename classes<D1>::type
 #else
     template<class Method, class... T>
     struct definition
@@ -180,7 +190,7 @@ struct Case {
         }
     };
     using lists = product<
-        types<M>, typename classes<D1>::type
+        METHOD_LIST<M>, typename classes<D1>::type
 #endif
 #if UD_L2
         ,
